@@ -31,7 +31,10 @@ OPS = ['==', '!=', '>', '>=', '<', '<=']
 # statements: ('if', a, op, b) ('ift', a) ('elif', a, op, b) ('elift', a) ('else',) ('endif',) ('ifdef', N) ('ifndef', N)
 #             ('define', N) ('mute',) ('unmute',) ('mark', k) ('label', name) ('const', name, k) ('include', file)
 # operands:   ('s', 'c1') symbolic | ('n', int) literal
+#             ('d', NAME, k) the text `NAME+k`, NAME given a value by ('definev', NAME, value)
 def rop(x):
+    if x[0] == 'd':
+        return f'{x[1]}+{x[2]}'
     return x[1] if x[0] == 's' else (str(x[1]) if x[1] >= 0 else f'(0-{-x[1]})')
 
 
@@ -51,6 +54,8 @@ def render(stmts):
             out.append('#' + k)
         elif k in ('ifdef', 'ifndef', 'define'):
             out.append(f'#{k} {st[1]}')
+        elif k == 'definev':
+            out.append(f'#define {st[1]} {st[2]}')
         elif k == 'mark':
             out.append(f'.byte {st[1]}')
         elif k == 'label':
@@ -80,12 +85,21 @@ class RefCond:
         self.consts = {}         # name -> [(value, active Bool)] in definition order
         self.must_reject = []    # z3 Bools: a selected reference without a selected definition / two selected definitions
         self.illformed = False
+        self.symval = {}         # symbol -> value, for symbols given a value by an unconditional #define
+        self.unknowns = 0
         self._walk(main, z3.BoolVal(True))
 
     def val(self, x):
+        if x[0] == 'd':
+            return E.bvval(self.symval[x[1]] + x[2])
         return self.env.z(x[1]) if x[0] == 's' else E.bvval(x[1])
 
     def truth(self, st):
+        if any(isinstance(x, tuple) and x[0] == 'd' and x[1] not in self.symval for x in st[1:]):
+            # the operand mentions a symbol that has no value yet: the statement does not say what such a condition
+            # yields (the family keeps the bodies of these chains empty)
+            self.unknowns += 1
+            return z3.Bool(f'unspecified{self.unknowns}')
         if st[0] in ('ift', 'elift'):
             return self.val(st[1]) != E.bvval(0)
         a, op, b = self.val(st[1]), st[2], self.val(st[3])
@@ -120,7 +134,10 @@ class RefCond:
                     self.illformed = True
                     return
                 frames.pop()
-            elif k == 'define':
+            elif k in ('define', 'definev'):
+                if k == 'definev':
+                    assert z3.is_true(z3.simplify(cur())), 'valued definitions are unconditional in this family'
+                    self.symval[st[1]] = st[2]
                 self.lines.append((fname, ln, 'define', cur(), None, st))
                 self.defined[st[1]] = z3.Or(self.defined.get(st[1], z3.BoolVal(False)), cur())
             elif k == 'mute':
@@ -272,6 +289,17 @@ def handwritten():
                                 ('const', 'KK', 3), ('endif',), ('markc', 'KK')]
     H['constant-used-before-definition-in-branch'] = [('markc', 'KK'), ('ift', S1), ('const', 'KK', 17), ('else',), ('const', 'KK', 34),
                                                       ('endif',)]
+    # the same condition text is met before and after the symbol it mentions gets its value: each directive is judged
+    # at the moment it is reached
+    D1, D0, D5 = ('d', 'LV', 1), ('d', 'LV', 0), ('d', 'LV', 5)
+    H['same-text-before-and-after-define'] = [('if', D1, '==', S1), ('endif',), ('ift', D0), ('endif',), ('definev', 'LV', 2),
+                                              ('if', D1, '==', S1), M(1), ('elif', D1, '==', S2), M(2), ('else',), M(3), ('endif',),
+                                              ('ift', D0), M(4), ('endif',), M(9)]
+    H['same-text-before-and-after-define-rhs'] = [('if', S1, '<', D5), ('endif',), ('if', S2, '>=', D5), ('endif',),
+                                                  ('definev', 'LV', -3), ('if', S1, '<', D5), M(1), ('endif',),
+                                                  ('if', S2, '>=', D5), M(2), ('else',), M(3), ('endif',), M(9)]
+    H['valued-symbol-in-elif'] = [('definev', 'LV', 7), ('ift', S1), M(1), ('elif', D0, '>', S2), M(2), ('elif', D1, '!=', S3), M(3),
+                                  ('endif',), M(9)]
     H['labels-and-constants'] = [('ift', S1), ('label', 'la'), ('const', 'KA', 5), M(1), ('else',), ('label', 'lb'),
                                  ('const', 'KB', 6), M(2), ('endif',), ('label', 'lc')]
     return H
@@ -283,6 +311,12 @@ def random_seq(rnd, max_len, max_depth=3):
     marks = iter(range(1, 200))
     defined = set()
     ops = [S1, S2, S3]
+    if rnd.random() < 0.25:
+        # a symbol with a value; the texts that mention it are also met (in empty chains) before it is defined
+        d1, d0 = ('d', 'LV', 1), ('d', 'LV', 0)
+        out += [('if', d1, rnd.choice(OPS), rnd.choice(ops)), ('endif',), ('ift', d0), ('endif',),
+                ('definev', 'LV', rnd.choice([0, 1, 2, -1, 5]))]
+        ops = ops + [d1, d0]
 
     def cond(kind):
         r = rnd.random()
